@@ -1230,6 +1230,28 @@ class CurveEngineC03:
                 else:
                     op = {"op": "fit", "kw": {}}
             ops.append(op)
+        if index % 13 == 5:
+            # directed tail (run index alone; appended, so the rest of the
+            # run is what it was): the same steps in two legal orders, one
+            # after the other - another order is another pipeline, the fit
+            # belongs to the data processed in the order asked for
+            A_ = ["compute_tip_position", "smooth_height",
+                  "correct_force_offset", "correct_tip_offset"]
+            B_ = ["smooth_height", "compute_tip_position",
+                  "correct_force_offset", "correct_tip_offset"]
+            if (index // 13) % 2:
+                A_, B_ = B_, A_
+            rt_ = ["fit_kw", "apply", "attr"][(index // 26) % 3]
+            if cfg["kind"] != "recorded":
+                # smoothing is the identity on a synthetic height ramp
+                cfg = {"kind": "recorded", "enum": 0,
+                       "file": curves.RECORDED_SINGLE[(index // 13) % 4]}
+            ops += [{"op": "prep", "route": "fit_kw", "steps": A_,
+                     "options": None},
+                    {"op": "fit", "kw": {}},
+                    {"op": "prep", "route": rt_, "steps": B_,
+                     "options": None},
+                    {"op": "fit", "kw": {}}]
         return {"config": {"curve": cfg, "swarm": swarm,
                            "xproc": index % 24 == 11}, "ops": ops}
 
